@@ -1,4 +1,5 @@
 import BM.Props.C19
+import BM.Props.C19c
 import BM.Props.SrcPin.C19
 /- Top module of property C19: its theorems (BM.Props.C19) and the statement of which units of /repo's
    source its model and proofs were written against (BM/Props/SrcPin/C19.lean, re-checked against the
